@@ -38,6 +38,7 @@ PINS = [
     'mesonbuild.rewriter:Rewriter.analyze_meson',
     'mesonbuild.ast.postprocess:AstIndentationGenerator',
     'mesonbuild.mparser:StringNode',
+    'mesonbuild.mparser:Lexer.lex',
 ]
 TRUSTED = [
     'the real mparser.Parser / Lexer are used by the oracle to read files back (spans, token stream, trees)',
